@@ -360,7 +360,7 @@ pub struct Token {
 
     /// decoded fields included in the token
     /// (typically: peer's IP address, creation time)
-    #[serde(skip_serializing_if = "HashMap::is_empty")]
+    #[serde(default, skip_serializing_if = "HashMap::is_empty")]
     details: HashMap<String, serde_json::Value>,
 
     raw: Option<RawInfo>,
